@@ -128,7 +128,9 @@ def check_assignment(ctx, rule, name, fv, cv, base=None, cli=False, as_object=Fa
         ctx.mark_nontrivial('%s/%s/%r/%r/%r' % (rule, name, fv, cv, base))
     forced = FORCED.get(rule, {})
     eff_arith = forced.get('arithmetic') or (cv if name == 'arithmetic' and cv is not None else (fv if name == 'arithmetic' and fv is not None else E.options.default.get('arithmetic')))
-    if eff_arith == 'integer' and name == 'precision':
+    if (base or {}).get('arithmetic') == 'integer':
+        eff_arith = 'integer'
+    if eff_arith == 'integer':
         forced = dict(forced, precision=0)
     if name in forced:
         want = forced[name]
@@ -321,6 +323,8 @@ def all_assignments():
                 bases = [None, dict(arithmetic='fixed', precision=7), dict(arithmetic='rational')]
                 if name == 'precision':
                     bases = [None, dict(arithmetic='fixed'), dict(arithmetic='rational')]
+                if rule == 'wigm' and name in ('precision', 'display', 'guard'):
+                    bases = bases + [dict(arithmetic='integer')]       # integer arithmetic forces precision 0 whatever is supplied
             for base in bases:
                 for fv, cv in itertools.product([None] + vals, repeat=2):
                     out.append((rule, name, fv, cv, base))
